@@ -1059,9 +1059,13 @@ def get_output_filenames(
         ]
     )
 
-    filenames: "pd.Series" = df_filenames["filename"].apply(
-        lambda filename: Path(filename).relative_to(output_dir)
-    )
+    def _relative_to_output_dir(filename: str) -> Path:
+        # A sequential observation reports bare file names (already relative
+        # to 'output_dir'), the other modes report absolute paths.
+        path = Path(filename)
+        return path.relative_to(output_dir) if path.is_absolute() else path
+
+    filenames: "pd.Series" = df_filenames["filename"].apply(_relative_to_output_dir)
 
     del df_filenames["filename"]
     df_filenames["filename"] = filenames
